@@ -27,7 +27,8 @@
 EXTENDS Naturals, Sequences, FiniteSets, TLC
 
 CONSTANTS MaxServerBeta,   \* the server treats at most this many versions as beta
-          BetaTopOnly      \* TRUE: only the server's newest version may be beta
+          BetaTopOnly,     \* TRUE: only the server's newest version may be beta
+          ServerSets       \* the server version sets S to enumerate (AllServerSets = every subset)
 
 DSE1 == 65
 DSE2 == 66
@@ -35,10 +36,18 @@ Supported == {1, 2, 3, 4, 5, 6, DSE1, DSE2}     \* ProtocolVersion.SUPPORTED_VER
 Beta      == {6}                                \* ProtocolVersion.BETA_VERSIONS
 MinSupported == 1
 
+AllServerSets == SUBSET Supported
+WitnessServerSets == {{}, {6}, {3, 4}, {4, 5}, {3, 4, 5, DSE1}}      \* small family for the vacuity witnesses
+
 MaxOf(X) == CHOOSE x \in X : \A y \in X : y <= x
 
 \* ProtocolVersion.get_lower_supported: the next lower supported non-beta version, 0 when there is none
 Lower(v) == LET c == {x \in Supported \ Beta : x < v} IN IF c = {} THEN 0 ELSE MaxOf(c)
+
+\* server-side beta markings enumerated for a server that knows the versions X
+BetaSets(X) == IF BetaTopOnly
+               THEN {{}} \cup (IF X = {} \/ MaxServerBeta = 0 THEN {} ELSE {{MaxOf(X)}})
+               ELSE {Y \in SUBSET X : Cardinality(Y) <= MaxServerBeta}
 
 VARIABLES start, explicit, allowBeta, S, B,    \* the configuration (never changes)
           ver,                                 \* Cluster.protocol_version
@@ -55,10 +64,8 @@ Init == /\ start \in Supported
         /\ explicit \in BOOLEAN
         /\ allowBeta \in BOOLEAN
         /\ (start \in Beta => explicit \/ allowBeta)      \* a beta version is only ever *configured*
-        /\ S \in SUBSET Supported
-        /\ B \in SUBSET S
-        /\ Cardinality(B) <= MaxServerBeta
-        /\ (BetaTopOnly /\ B # {} => B = {MaxOf(S)})
+        /\ S \in ServerSets
+        /\ B \in BetaSets(S)
         /\ ver = start
         /\ log = <<>>
         /\ replies = <<>>
@@ -124,4 +131,14 @@ Witness_BetaReply    == ~(status = "connected" /\ \E i \in 1..Len(log) : replies
 Witness_Exhausted    == ~(status = "error" /\ ~explicit /\ Len(log) = 7)
 Witness_ExplicitFail == ~(status = "error" /\ explicit)
 Witness_ExplicitBeta == ~(status = "connected" /\ ver \in Beta)
+
+\* all witnesses in one run (-workers 1): CONSTRAINT RecordWitnesses, POSTCONDITION PrintWitnesses
+ASSUME TLCSet(2, {})
+WitnessesHere == (IF ~Witness_SkipBeta THEN {"Witness_SkipBeta"} ELSE {})
+            \cup (IF ~Witness_BetaReply THEN {"Witness_BetaReply"} ELSE {})
+            \cup (IF ~Witness_Exhausted THEN {"Witness_Exhausted"} ELSE {})
+            \cup (IF ~Witness_ExplicitFail THEN {"Witness_ExplicitFail"} ELSE {})
+            \cup (IF ~Witness_ExplicitBeta THEN {"Witness_ExplicitBeta"} ELSE {})
+RecordWitnesses == TLCSet(2, TLCGet(2) \cup WitnessesHere)
+PrintWitnesses == PrintT(<<"WITNESSES", TLCGet(2)>>)
 =============================================================================
